@@ -57,8 +57,8 @@ Definition words_text (ws : list word) : str := concat (map (fun w => S " " ++ w
 
 (* items *)
 (* identity position of an item: an ordinary first word (no identity), a ZID, a modify date and a ZID,
-   or a long creation date *)
-Inductive ident := IPlain (s : str) | IZid (z : str) | IModZid (m z : str) | ILong (d : str).
+   a long creation date, or a modify date alone (an edited note that has no ZID yet) *)
+Inductive ident := IPlain (s : str) | IZid (z : str) | IModZid (m z : str) | ILong (d : str) | IMod (m : str).
 Inductive tkind := TOpen | TDone | TCancelled | TBlocked | TParent.
 Definition kind_char (k : tkind) : ascii :=
   match k with TOpen => ch "o" | TDone => ch "x" | TCancelled => ch "~" | TBlocked => ch "<" | TParent => ch ">" end.
@@ -71,6 +71,7 @@ Definition ident_words (i : ident) : list word :=
   | IZid z => [WZid z]
   | IModZid m z => [WId m; WZid z]
   | ILong d => [WDate d]
+  | IMod m => [WId m]
   end.
 Definition item_words (it : item) : list word := ident_words (i_ident it) ++ i_words it.
 
@@ -118,10 +119,10 @@ Definition ident_create (today : date) (i : ident) : option date :=
   match i with
   | IZid z | IModZid _ z => Some (date_of_short today (zid_day z))
   | ILong d => Some (date_of_long today d)
-  | IPlain _ => None
+  | IPlain _ | IMod _ => None
   end.
 Definition ident_modify (today : date) (i : ident) : option date :=
-  match i with IModZid m _ => Some (date_of_short today m) | _ => None end.
+  match i with IModZid m _ | IMod m => Some (date_of_short today m) | _ => None end.
 (* the innermost enclosing scope that carries a date wins; else today *)
 Definition outer_date (today : date) (od : list (option date)) : date :=
   fold_left (fun acc o => match o with Some d => d | None => acc end) od today.
@@ -288,6 +289,7 @@ Definition dIdent (x : sexp) : ident :=
   if eqb_str k (S "plain") then IPlain (dStr (nthS 1 x))
   else if eqb_str k (S "zid") then IZid (dStr (nthS 1 x))
   else if eqb_str k (S "modzid") then IModZid (dStr (nthS 1 x)) (dStr (nthS 2 x))
+  else if eqb_str k (S "mod") then IMod (dStr (nthS 1 x))
   else ILong (dStr (nthS 1 x)).
 Definition dKind (x : sexp) : option tkind :=
   let s := dStr x in
@@ -331,11 +333,22 @@ Definition valid_identb (i : ident) : bool :=
   | IZid z => negb (is_short_date_spec z) && is_zid z && is_ok (from_short (zid_day z))
   | IModZid m z => is_short_date_spec m && is_ok (from_short m) && is_zid z && is_ok (from_short (zid_day z))
   | ILong d => negb (is_short_date_spec d) && negb (is_zid d) && is_ok (from_long d)
+  | IMod m => is_short_date_spec m && is_ok (from_short m)
   end.
+(* after a modify date that stands alone the next word could still be taken for the note's ZID: it must not look like one *)
+Definition word_not_zidb (w : word) : bool :=
+  match w with
+  | WId s | WDate s | WTag _ s | WLink s => negb (is_zid s)
+  | WProp k _ => negb (is_zid k)
+  | WZid _ => false
+  end.
+Definition after_mod_okb (i : ident) (ws : list word) : bool :=
+  match i, ws with IMod _, w :: _ => word_not_zidb w | _, _ => true end.
 Definition nonempty (s : str) : bool := match s with [] => false | _ => true end.
 Definition valid_itemb (it : item) : bool :=
   let body := strip (words_text (item_words it)) in
-  valid_identb (i_ident it) && nonempty body && negb (contains (S ":: ") body) && negb (contains (S "::" ++ [nlc]) body).
+  valid_identb (i_ident it) && after_mod_okb (i_ident it) (i_words it) &&
+  nonempty body && negb (contains (S ":: ") body) && negb (contains (S "::" ++ [nlc]) body).
 Definition valid_mwordb (w : word) : bool := match w with WDate d => is_ok (from_long d) | _ => true end.
 Fixpoint valid_secb (lvl : nat) (s : gsec) : bool :=
   match s with
